@@ -15,7 +15,7 @@ ASSUMPTIONS = ["the comparison is against the library's own computation on a fre
 NSHARDS = {"quick": 32, "thorough": 64}
 BUDGET_S = {"quick": 200, "thorough": 2400}
 MIN_HITS = {
-    'quick': {"history": 10555, "sighash_step": 9343, "probe": 123286, "mut_after_fill": 3136, "slots_nonempty": 13085, "op_set_input": 6478, "op_set_output": 4864, "long_history": 48},
+    'quick': {"history": 10619, "sighash_step": 9445, "probe": 123661, "mut_after_fill": 3177, "slots_nonempty": 13262, "op_set_input": 6464, "op_set_output": 4867, "long_history": 48},
     'thorough': {"history": 367608, "sighash_step": 1038509, "probe": 7707805, "mut_after_fill": 167301, "op_set_input": 664443, "op_set_output": 498246, "long_history": 5760},
 }
 
